@@ -61,6 +61,14 @@ def run(ck):
     for m, v, why, hist in gates:
         ck.require_fact("A1.insert-gates", fl, insert, m, v, "emplace_front|index emplace", min_sites=2, why="(%s)" % why, history=hist)
     ck.require_passed("A1.insert-gates", fl, insert, "deleted", "emplace_front|index emplace", min_sites=2, why="(two entries could carry one key)")
+    # add() replaces: whatever it answers, a previous entry under the same key is gone afterwards (the zero-capacity map, which holds nothing, excepted)
+    for st in fl.find(ev_return()):
+        if st.passed("deleted") or st.has(E.m_calls(CM + "memLimit"), False):
+            ck.ok("A1.replace-semantics", st.where(), "add() returns only after del(key) (or from an always-empty map)")
+        else:
+            ck.violation("A1.replace-semantics", "A1|add|return-before-del", st.where(),
+                         "ClpMap::add can return without having removed a previous entry under the same key (e.g. when the new value can never fit): get() keeps "
+                         "serving the stale value and the accounting diverges from the specification", fl.witness(st))
     ck.require_passed("A1.insert-gates", fl, insert, "trimmed", "emplace_front|index emplace", min_sites=2, why="(memoryUsed() could exceed the capacity)")
     for s in fl.find(insert):
         x = E.strip(s.ev["x"])
@@ -144,6 +152,8 @@ def run(ck):
     ck.require_fact("T1.makes-room", fl, ev_exit(), E.m_cmp("<", E.m_calls(CM + "memLimit"), ws), False, "return")
     sm = inst("setMemLimit")
     need_locals(ck, sm, "newLimit")
+    smf = ck.flow(sm, markers={"stored": ev_assign(LIMIT, E.m_is_ref("newLimit"))})
+    ck.require_passed("T1.limit-always-stored", smf, ev_exit(), "stored", "return", why="(a shrink that purges would keep the old, larger capacity: later adds refill the map past the configured limit)")
     nl = E.m_is_ref("newLimit")
     trim_call = ev_call(CM + "trim", arg={0: E.M(lambda t: E.strip(t).get("k") == "bin" and E.strip(t).get("op") == "-" and E.m_is_mem(LIMIT)(E.strip(t)["l"]) and E.m_is_ref("newLimit")(E.strip(t)["r"]),
                                                  "memLimit_ - newLimit")})
